@@ -6,7 +6,9 @@ from vf.lazy import ck, libx, common
 PROP = "C07"
 TECHNIQUE = ('runtime monitoring: ParFront vs ParCons partitions judged against ALL minimisers enumerated by a DP oracle; consistent_with judged on generated pairs with known truth')
 RULE = ("cases = dataset (D11/D10 block structured with >= 3 components and cascading merges, D8, D9, D3; n<=7 quick, "
-        "<=9 thorough) x scheme (S1-S3, S6); oracle = subset DP with reconstruction of ALL minimisers (cases with more "
+        "<=9 thorough; 8 % of the cases: 11-24 (thorough: -40) elements in ordered blocks, where the composite oracle "
+        "ref.BlockOptimum knows every optimum as a concatenation of block minimisers when 'before' is strictly cheapest "
+        "on every cross-block pair) x scheme (S1-S3, S6); oracle = subset DP with reconstruction of ALL minimisers (cases with more "
         "than 5000 optima are skipped and counted); plus generated (partition, consensus) pairs with known truth for "
         "consistent_with (matching, straddling bucket, swapped groups, foreign / missing element with equal counts); "
         "non-trivial = >= 3 ParCons groups or ParFront != ParCons; distinct = digest of (dataset, scheme)")
@@ -25,15 +27,26 @@ def gen_case(rng, ctx):
     gen.OUTLIER["n_only_up_to"] = 9      # the exact oracle limits the number of elements; rankings are not limited
     thorough = ctx.tier == "thorough"
     nmax = (9 if rng.random() < 0.2 else 7) if thorough else (7 if rng.random() < 0.4 else 6)
-    cls, ds = gen.dataset(rng, classes="D11 D11 D11 D10 D10 D8 D8 D9 D3 D2 D2 D7 D15", nmax=nmax, mmax=6)
-    ds = libx.normalise_raw(ds)
-    scls, sch = gen.scheme(rng, "S1 S1 S2 S3 S3 S3 S6 S9 S11 S11")
+    blocks = None
+    if rng.random() < 0.08:
+        # beyond the subset DP: 11-40 elements in ordered blocks of 1-5, judged by the composite oracle ref.BlockOptimum
+        n = rng.choice([11, 12, 14, 16, 20, 24, 30, 40] if thorough else [11, 12, 13, 14, 16, 20, 24])
+        cls = "blocks"
+        ds, blocks = gen.block_dataset(rng, n)
+        ei = ref.expected_type_is_int(ds)
+        ds = libx.normalise_raw(ds)
+        blocks = [[libx.lib_value(e, ei) for e in b] for b in blocks]
+        scls, sch = gen.scheme(rng, "S1 S1 S2 S3 S3 S6 S11")
+    else:
+        cls, ds = gen.dataset(rng, classes="D11 D11 D11 D10 D10 D8 D8 D9 D3 D2 D2 D7 D15", nmax=nmax, mmax=6)
+        ds = libx.normalise_raw(ds)
+        scls, sch = gen.scheme(rng, "S1 S1 S2 S3 S3 S3 S6 S9 S11 S11")
     # (partition, consensus) pair for consistent_with
     uni = ref.universe(ds)
     base = gen.ranking_over(rng, uni, rng.choice([0.0, 0.3, 0.5]))
     kind = rng.choice(["matching", "matching", "straddle", "swapped", "foreign", "missing", "random"])
     return {"ds": ds, "scheme": sch, "dcls": cls, "scls": scls, "pair_kind": kind, "pair_base": base,
-            "pair_seed": rng.randrange(10 ** 6)}
+            "pair_seed": rng.randrange(10 ** 6), "blocks": blocks}
 
 
 def raw_groups(groups):
@@ -118,11 +131,37 @@ def check_case(case, ctx):
                 ctx.count("parfront_differs")
                 if len(front[0]) > len(cons_groups[0]):
                     ctx.count("first_group_merged")
-            dp = ref.optimum_dp(ds, sch, elems)
-            mins = dp.minimisers(cap=5000)
-            if mins is None:
-                ctx.count("too_many_optima_skipped")
+            mins = None
+            if case.get("blocks"):
+                bo = ref.BlockOptimum(ds, sch, case["blocks"])
+                if not bo.ok:
+                    ctx.count("blocks_not_decomposable")
+                else:
+                    ctx.count("blocks_judged")
+                    if bo.strict:
+                        ctx.count("blocks_strict")
+                        w = bo.optimum_violating(front)
+                        if w == "unknown":
+                            ctx.count("too_many_optima_skipped")
+                        elif w is not None:
+                            ctx.violation("C07/optimal-consensus-violates-parfront", f"the optimal consensus {w} (score "
+                                          f"{float(bo.value)}) does not respect the ParFront partition {front} (ParCons: "
+                                          f"{cons_groups})", base, observed=w, expected=front)
+                        else:
+                            ctx.count("block_optima_covered", min(bo.nb_optima(), 10 ** 6))
+                    else:
+                        # necessary condition only: if every optimal consensus respects ParFront, at least one does
+                        br = bo.best_respecting(front)
+                        if br is not None and br != bo.value:
+                            ctx.violation("C07/optimal-consensus-violates-parfront", f"no optimal consensus respects the "
+                                          f"ParFront partition {front}: best respecting = {float(br)}, optimum = "
+                                          f"{float(bo.value)}", base, observed=br, expected=bo.value)
             else:
+                dp = ref.optimum_dp(ds, sch, elems)
+                mins = dp.minimisers(cap=5000)
+                if mins is None:
+                    ctx.count("too_many_optima_skipped")
+            if mins is not None:
                 ctx.count("optima_checked", len(mins))
                 if len(mins) >= 2:
                     ctx.count("cases_with_several_optima")
@@ -177,7 +216,9 @@ def reach(counters, tier, info):
                             ("cases where the first group takes part in a merge", "first_group_merged", 50 * k),
                             ("optimal consensuses checked against ParFront", "optima_checked", 2000 * k),
                             ("cases with several optima", "cases_with_several_optima", 100 * k),
-                            ("consistent_with pairs judged", "consistent_pairs", 1000 * k)]:
+                            ("consistent_with pairs judged", "consistent_pairs", 1000 * k),
+                            ("datasets of 11+ elements judged by the composite block oracle (all optima known)",
+                             "blocks_strict", 20 * k)]:
         v = counters.get(key, 0)
         out.append({"name": name, "observed": v, "required": need, "ok": v >= need})
     for kind in ("matching", "straddle", "swapped", "foreign", "missing"):
